@@ -139,10 +139,16 @@ def run_property(prop, tier, seed, replay_path=None):
         print(s, flush=True)
 
     # ---- 1. proof obligations
-    coq_ok, coq_log = build_coq()
+    # VERIF_SKIP_COQ=1 is for the mutation tooling only (tools/mutrun.py, tools/mutone.py): the proof obligations do not
+    # depend on /repo, so re-checking them for each of a thousand mutants of /repo would only burn time. Never set by the
+    # commands registered in MANIFEST.json.
+    skip_coq = os.environ.get("VERIF_SKIP_COQ") == "1"
+    coq_ok, coq_log = (True, "") if skip_coq else build_coq()
     gate = grep_gate()
     proof_ok, theorems, examples, pa_text = False, [], [], ""
-    if coq_ok:
+    if skip_coq:
+        proof_ok = True
+    elif coq_ok:
         proof_ok, theorems, examples, pa_text, _ = check_property_file(pid)
     closed, axioms = assumptions_summary(pa_text)
     broken = []
